@@ -32,6 +32,10 @@ def gen_field(rng, pool):
 
 def gen_struct_doc(rng):
     pool = [name(rng) for _ in range(3)] + ["Source", "Package", "Depends"]
+    if rng.random() < 0.4:
+        # names that differ only in letter case, or by a suffix
+        base = rng.choice(pool)
+        pool += [base.swapcase(), base.lower(), base + "-X"]
     blocks = []
     def blanks(n_opts):
         for _ in range(rng.choice(n_opts)):
@@ -110,6 +114,9 @@ def doc_cases(n, rng, prefix):
         d = gen_struct_doc(rng)
         names = all_names(d)
         probe = rng.choice(names) if names and rng.random() < 0.85 else "Nope"
+        if names and rng.random() < 0.3:
+            # near misses: other letter case, a prefix, an extension
+            probe = rng.choice([probe.swapcase(), probe.lower(), probe.upper(), probe[:-1] or "x", probe + "x", probe + " "])
         cases.append((f"{prefix}{i}", [hexs(render(d)), encode(d) or "-", hexs(probe)]))
     return cases
 
